@@ -1,9 +1,9 @@
 (** Hand-written helpers used by the text that bin/rs2v generates from
     /repo/src/stream.rs (Gen/StreamGen.v).  Every name used by generated text
     and not defined in Model/Stream.v or the Coq standard library is defined
-    here; each is the fixed meaning of one Rust construct (see the docstring of
-    bin/rs2v).  Definitions only. *)
-From RepeV Require Export Base.Outcome Model.Stream.
+    or in Base/GenCommon.v (helpers shared with Gen/FrameGen.v); each is the fixed
+    meaning of one Rust construct (see the docstring of bin/rs2v).  Definitions only. *)
+From RepeV Require Export Base.Outcome Model.Stream Base.GenCommon.
 
 (** ** assignment to one field of the mutex-protected state *)
 Definition set_t_window (s : tc) (v : N) : tc :=
@@ -26,49 +26,6 @@ Definition set_t_peer (s : tc) (v : option N) : tc :=
   mkTc (t_window s) (t_sent s) (t_acked s) (t_file s) (t_cancelled s) (t_ring s) (t_held s) (t_cap s) v (t_pending s).
 Definition set_t_pending (s : tc) (v : option N) : tc :=
   mkTc (t_window s) (t_sent s) (t_acked s) (t_file s) (t_cancelled s) (t_ring s) (t_held s) (t_cap s) (t_peer s) v.
-
-(** ** Option / VecDeque / integer methods *)
-Definition opt_is_some {A} (o : option A) : bool := match o with Some _ => true | None => false end.
-Definition opt_is_none {A} (o : option A) : bool := match o with Some _ => false | None => true end.
-(** [Option::is_some_and] *)
-Definition opt_is_some_and {A} (o : option A) (p : A -> bool) : bool :=
-  match o with Some a => p a | None => false end.
-(** [==] on [Option<T>] *)
-Definition opt_eqb {A} (eqb : A -> A -> bool) (a b : option A) : bool :=
-  match a, b with
-  | Some x, Some y => eqb x y
-  | None, None => true
-  | _, _ => false
-  end.
-(** [VecDeque::back] (the list is oldest first) *)
-Fixpoint last_opt {A} (l : list A) : option A :=
-  match l with
-  | [] => None
-  | [a] => Some a
-  | _ :: l' => last_opt l'
-  end.
-Definition list_is_empty {A} (l : list A) : bool := match l with [] => true | _ => false end.
-(** bare [a - b] on u64 with overflow checks off (release arithmetic): wraps *)
-Definition wrap_sub64 (a b : N) : N := (a + two64 - b) mod two64.
-
-(** ** [while c { body }] over the state, with fuel *)
-Fixpoint while_fuel {S : Type} (fuel : nat) (c : S -> bool) (body : S -> S) (s : S) : S :=
-  match fuel with
-  | O => s
-  | Datatypes.S fuel' => if c s then while_fuel fuel' c body (body s) else s
-  end.
-
-(** ** results *)
-(** [Result<A, E>] *)
-Inductive result (A E : Type) : Type := ROk (a : A) | RErr (e : E).
-Arguments ROk {A E} a.
-Arguments RErr {A E} e.
-
-(** one iteration of a [loop] around [cv.wait_timeout]: the method returned a
-    value, or released the mutex and parked *)
-Inductive iter (A : Type) : Type := Ret (a : A) | Park.
-Arguments Ret {A} a.
-Arguments Park {A}.
 
 (** [ResumeRejection], [CreditError], [ReconnectOutcome] of src/stream.rs *)
 Inductive resume_rejection : Set :=
